@@ -168,6 +168,24 @@ def run_recipe(C, drv, rc):
             d_ = inner[rc['pick'] % len(inner)]
             d_.left = mk(_tup(rc['branch']))
             check_part(C, root, 'childlinks', dict(rc, at=1))
+    elif rc['kind'] == 'large':
+        import sys as _sys
+        _sys.setrecursionlimit(max(_sys.getrecursionlimit(), 5000))
+        nm_ = rc['name']
+        kind_, n_ = nm_.split('-')
+        n_ = int(n_)
+        s_ = 'L'
+        if kind_ == 'chain':
+            for _ in range(n_):
+                s_ = ('U', s_)
+        elif kind_ == 'comb':
+            for _ in range(n_):
+                s_ = ('B', s_, 'L')
+        else:
+            def _f(d_):
+                return 'L' if d_ == 0 else ('B', _f(d_ - 1), _f(d_ - 1))
+            s_ = _f(n_)
+        check_part(C, T.build(s_), 'large', dict(rc, at=0))
     elif rc['kind'] == 'link-order':
         side = rc['side']
         p_ = L['Node'](name='SUM', type='FUNCTION')
@@ -324,6 +342,24 @@ def check(ctx):
             for order in ('child-first', 'parent-first'):
                 run_recipe(C, drv, dict(kind='topdown', shape=s_, order=order, measure_between=bool(T.shape_size(s_) % 2)))
             run_recipe(C, drv, dict(kind='childlinks-edit', shape=s_, pick=C.rng.randrange(1 << 10), branch=C.rng.choice(T.shapes_upto(2))))
+        # large trees (beyond 256 nodes per level-order index, beyond the recursion-free traversals' usual sizes): a unary
+        # chain, a comb and a full binary tree, judged against the recursive reference
+        import sys as _sys
+        _sys.setrecursionlimit(max(_sys.getrecursionlimit(), 5000))
+        def _chain(n_):
+            s_ = 'L'
+            for _ in range(n_):
+                s_ = ('U', s_)
+            return s_
+        def _comb(n_):
+            s_ = 'L'
+            for _ in range(n_):
+                s_ = ('B', s_, 'L')
+            return s_
+        def _full(d_):
+            return 'L' if d_ == 0 else ('B', _full(d_ - 1), _full(d_ - 1))
+        for nm_, sh_ in (('chain-300', _chain(300)), ('comb-140', _comb(140)), ('full-9', _full(9 if ctx['tier'] == 'thorough' else 8)), ('chain-260', _chain(260))):
+            check_part(C, T.build(sh_), 'large', dict(kind='large', name=nm_, at=0))
         # every order of the three linking steps of a right (and left) child
         for side in (False, True):
             for order in _it.permutations(['flag', 'parent', 'attach']):
